@@ -48,9 +48,13 @@ func (list *List) LPop(count int) ([]string, bool) {
 }
 
 func (list *List) LPush(elems []string) int {
-	for _, elem := range elems {
-		list.elements = append([]string{elem}, list.elements...)
+	// Each element goes in front of the one before it: the new head is the given elements in
+	// reverse order. The list is built once, not once per element.
+	elements := make([]string, 0, len(elems)+len(list.elements))
+	for n := len(elems) - 1; 0 <= n; n-- {
+		elements = append(elements, elems[n])
 	}
+	list.elements = append(elements, list.elements...)
 	return len(list.elements)
 }
 
